@@ -752,8 +752,15 @@ func (g *gen) escapeClosure() {
 // escapePointer: a creator function returning / storing the address of a variable.
 func (g *gen) escapePointer() {
 	k := capKinds[g.Pick(len(capKinds), "ptr-kind")]
-	place := capPlaces[g.Pick(len(capPlaces), "ptr-place")]
+	ptrPlaces := append(append([]string{}, capPlaces...), "multi-assign-local", "multi-assign-local")
+	place := ptrPlaces[g.Pick(len(ptrPlaces), "ptr-place")]
 	route := routes[g.Pick(len(routes), "ptr-route")]
+	// extra parameters put the creator on the generic function path whatever the kind of a
+	extraParams, extraArgs := "", ""
+	if g.Chance(1, 2, "ptr-3-params") {
+		g.Tag("pointer-creator:3-parameters(generic-path)")
+		extraParams, extraArgs = ", b int, c string", ", 1, \"q\""
+	}
 	stored := strings.HasPrefix(route, "stored-by-creator")
 	if k == "complex128" && g.no("F-C06-5") {
 		// F-C06-5: the address of a complex128 variable does not compile
@@ -823,29 +830,69 @@ func (g *gen) escapePointer() {
 			result = " (v " + k + ", p " + ptyp + ")"
 			body = "p = &v\nv = a\nreturn\n"
 		}
+	case "multi-assign-local":
+		// v, w := f(): locals declared from a multi-valued call
+		pair := g.Top("pair")
+		g.Decls = append(g.Decls, fmt.Sprintf("func %s(a %s) (%s, int) {\n\treturn a, 1\n}", pair, k, k))
+		body = fmt.Sprintf("v, w := %s(a)\n_ = w\n%s", pair, fin(target))
 	}
 	_ = alsoClosure
-	g.Decls = append(g.Decls, fmt.Sprintf("func %s(a %s)%s {\n%s}", creator, k, result, progen.Indent(body)))
-	arg := g.capLit(k)
+	if extraParams != "" {
+		body = "_, _ = b, c\n" + body
+	}
+	g.Decls = append(g.Decls, fmt.Sprintf("func %s(a %s%s)%s {\n%s}", creator, k, extraParams, result, progen.Indent(body)))
+	arg := g.capLit(k) + extraArgs
+	// later calls of the SAME creator with other arguments: they reuse its frame
+	recall := ""
+	if !(stored && !strings.HasSuffix(route, "slice")) && g.Chance(3, 4, "ptr-recall") {
+		g.Tag("pointer-creator-called-again->=33-times-with-other-arguments")
+		i := g.Local("ci")
+		lhs := "_ = "
+		if stored {
+			lhs = ""
+		} else if place == "named-result" {
+			lhs = "_, _ = "
+		}
+		recall = fmt.Sprintf("for %s := 0; %s < %d; %s++ {\n\t%s%s(%s%s)\n}\n", i, i, g.Int(33, 50, "ptr-recall-n"), i, lhs, creator, argOf(k, i), extraArgs)
+	}
 	var read string
 	switch {
 	case stored:
-		g.create = append(g.create, fmt.Sprintf("%s(%s)\n", creator, arg))
+		g.create = append(g.create, fmt.Sprintf("%s(%s)\n", creator, arg)+recall)
 		read = sink
 		if strings.HasSuffix(route, "slice") {
 			read = sink + "[0]"
 		}
 	case place == "named-result":
 		a, b := g.Local("nr"), g.Local("e")
-		g.create = append(g.create, fmt.Sprintf("%s, %s := %s(%s)\nrec.E(%d, %s)\n", a, b, creator, arg, g.Ev(), a))
+		g.create = append(g.create, fmt.Sprintf("%s, %s := %s(%s)\nrec.E(%d, %s)\n", a, b, creator, arg, g.Ev(), a)+recall)
 		read = b
 	default:
 		var c string
 		c, read = g.route(route, ptyp, creator, arg)
-		g.create = append(g.create, c)
+		g.create = append(g.create, c+recall)
 	}
 	// read, then modify through the pointer (the next round of reads sees the change)
 	g.reads = append(g.reads, fmt.Sprintf("rec.E(%d, *%s)\n%s\n", g.Ev(), read, g.capMut("(*"+read+")", k)))
+}
+
+// argOf returns an expression of kind k whose value depends on the int variable i.
+func argOf(k, i string) string {
+	switch k {
+	case "[]int":
+		return "[]int{" + i + ", " + i + " + 1}"
+	case "[2]int":
+		return "[2]int{" + i + ", 7}"
+	case "struct{A int; B string}":
+		return "struct{A int; B string}{" + i + ", \"q\"}"
+	case "string":
+		return "\"abcdefgh\"[" + i + "%5:]"
+	case "bool":
+		return i + "%2 == 0"
+	case "complex128", "complex64":
+		return k + "(complex(float64(" + i + "), 1))"
+	}
+	return k + "(" + i + ")"
 }
 
 // escapeRecursion: every level of a recursion leaves a closure or a pointer behind.
